@@ -1,11 +1,14 @@
 /-
   Lemmas/CalendarSrc.lean — the hand-written calendar model (Model/Calendar.lean) equals the interpretation of the
-  CURRENT SOURCE of the `get_available_units` methods (Extracted/CalendarSrc.lean, regenerated from
-  /repo/src/pjplan/calendar.py and resource.py by tools/extract_calendar.py on every check).
+  CURRENT SOURCE of the `get_available_units` methods and of the availability search (Extracted/CalendarSrc.lean,
+  regenerated from /repo/src/pjplan/calendar.py and resource.py by tools/extract_calendar.py on every check).
 
   `interp c t` runs the translated body of the class of the object `c` on the object's fields; calls on
-  sub-calendars go recursively through `interp`.  Main results: `interp_eq_eval`, `interpResource_eq_capR`
-  (no hypotheses).  A semantic edit of a translated method makes the corresponding `run_*` lemma fail to compile.
+  sub-calendars go recursively through `interp`.  Main results (no well-formedness hypotheses):
+    interp_eq_eval          : interp c t = c.eval t
+    interpResource_eq_capR  : interpResource c t = (capR c t).map some
+    interpSearch_eq_search  : n < fuel → interpSearch fuel c dir n t = search c dir n t
+  A semantic edit of a translated method makes the corresponding `run_*` / `search_*` lemma fail to compile.
 -/
 import PjVerif.Extracted.CalendarSrc
 import PjVerif.Model.Calendar
@@ -27,8 +30,8 @@ def weekDict (h : List Rat) : List (Atom × Atom) :=
 def directDict (m : List (Int × Rat)) : List (Atom × Atom) :=
   Dict.ofList (m.map (fun p => (Atom.time ((p.1 : Int) : Rat), Atom.num p.2)))
 
-/-- operator calendars: `self.__calendars` = the two operand objects -/
-def opFields : Env := [("calendars", .list [.ref 0, .ref 1])]
+/-- operator calendars: `self.__calendars` = the two operand objects (`ref 0` is the object itself) -/
+def opFields : Env := [("calendars", .list [.ref 1, .ref 2])]
 
 def weeklyFields (s e : Option Time) (h : List Rat) : Env :=
   [("start", optTime s), ("end", optTime e), ("day_hours", .dict (weekDict h))]
@@ -39,19 +42,19 @@ def fixedFields (u : Rat) (s e : Option Time) : Env :=
   [("units", .atom (.num u)), ("start", optTime s), ("end", optTime e)]
 
 /-- `Resource`: `self.calendar` -/
-def resourceFields : Env := [("calendar", .atom (.ref 0))]
+def resourceFields : Env := [("calendar", .atom (.ref 1))]
 
 /-- leaf calendars call no other object -/
 def noSub : Nat → Time → Res (Option Rat) := fun _ _ => throw stuck
 
 /-- the two operands of an operator calendar -/
 def twoSubs (x y : Time → Res (Option Rat)) : Nat → Time → Res (Option Rat)
-  | 0 => x
-  | 1 => y
+  | 1 => x
+  | 2 => y
   | _ => fun _ => throw stuck
 
 def oneSub (x : Time → Res (Option Rat)) : Nat → Time → Res (Option Rat)
-  | 0 => x
+  | 1 => x
   | _ => fun _ => throw stuck
 
 /-- evaluate a calendar object by running the extracted source of its class -/
@@ -71,13 +74,15 @@ def interpResource (c : Cal) (t : Time) : Res (Option Rat) :=
 
 /-! ### symbolic execution -/
 
-/-- unfold the interpreter on a concrete program (extra simp lemmas: the program, the fields, facts about `sub`) -/
+/-- unfold the interpreter on a concrete program (extra simp lemmas: the program, the fields, facts about `sub`);
+    `a ≤ b` on numbers is normalised to `¬ b < a`, the form the model uses -/
 syntax "pylite_exec" (" [" Lean.Parser.Tactic.simpLemma,* "]")? : tactic
 macro_rules
   | `(tactic| pylite_exec) => `(tactic| pylite_exec [])
   | `(tactic| pylite_exec [$ls,*]) => `(tactic|
-      simp [run, execBlock, Stmt.exec, Expr.eval, forLoop, iterOf, Env.get?, Env.set, truth, arith, PyLite.compare,
-        cmpRat, Atom.asNum?, pure, Except.pure, bind, Except.bind, throw, throwThe, MonadExceptOf.throw, $ls,*])
+      simp [run, runBody, execBlock, Stmt.exec, Expr.eval, forLoop, iterOf, Env.get?, Env.set, truth, arith, arithTime, PyLite.compare,
+        cmpRat, Atom.asNum?, pure, Except.pure, bind, Except.bind, throw, throwThe, MonadExceptOf.throw,
+        ← Rat.not_lt, $ls,*])
 
 /-- to show `l = if c then a else b`, split on `c` -/
 theorem eq_ite_of {α : Type} {c : Prop} [Decidable c] {l a b : α} (h1 : c → l = a) (h2 : ¬c → l = b) :
@@ -162,64 +167,64 @@ theorem weekDict_get? (h : List Rat) (n : Nat) (hn : n < 7) :
 /-! ### per-class lemmas: the extracted body, run on the object's fields, computes the model's clause -/
 
 /-! ### per-class lemmas: the extracted body, run on the object's fields, computes the model's clause.
-    Operator classes: for an arbitrary behaviour `sub` of the two operands (results `sub 0 t`, `sub 1 t`). -/
+    Operator classes: for an arbitrary behaviour `sub` of the two operands (results `sub 1 t`, `sub 2 t`). -/
 
 theorem run_Sum (sub : Nat → Time → Res (Option Rat)) (t : Time) :
     run sub src_WorkCalendarSum opFields t = (do
-      let x ← sub 0 t
+      let x ← sub 1 t
       let acc ← accum (fun u v => pure (u + v)) none x
-      let y ← sub 1 t
+      let y ← sub 2 t
       accum (fun u v => pure (u + v)) acc y) := by
-  rcases hx : sub 0 t with _ | _ | u <;> rcases hy : sub 1 t with _ | _ | v <;>
+  rcases hx : sub 1 t with _ | _ | u <;> rcases hy : sub 2 t with _ | _ | v <;>
     pylite_exec [src_WorkCalendarSum, opFields, hx, hy, accum]
 
 theorem run_Mul (sub : Nat → Time → Res (Option Rat)) (t : Time) :
     run sub src_WorkCalendarsMul opFields t = (do
-      let x ← sub 0 t
+      let x ← sub 1 t
       let acc ← accum (fun u v => pure (u * v)) none x
-      let y ← sub 1 t
+      let y ← sub 2 t
       accum (fun u v => pure (u * v)) acc y) := by
-  rcases hx : sub 0 t with _ | _ | u <;> rcases hy : sub 1 t with _ | _ | v <;>
+  rcases hx : sub 1 t with _ | _ | u <;> rcases hy : sub 2 t with _ | _ | v <;>
     pylite_exec [src_WorkCalendarsMul, opFields, hx, hy, accum]
 
 theorem run_Div (sub : Nat → Time → Res (Option Rat)) (t : Time) :
     run sub src_WorkCalendarDiv opFields t = (do
-      let x ← sub 0 t
+      let x ← sub 1 t
       let acc ← accum divOp none x
-      let y ← sub 1 t
+      let y ← sub 2 t
       accum divOp acc y) := by
-  rcases hx : sub 0 t with _ | _ | u <;> rcases hy : sub 1 t with _ | _ | v <;>
+  rcases hx : sub 1 t with _ | _ | u <;> rcases hy : sub 2 t with _ | _ | v <;>
     pylite_exec [src_WorkCalendarDiv, opFields, hx, hy, accum, divOp]
   by_cases hv : v = 0 <;> simp [hv]
 
 theorem run_Sub (sub : Nat → Time → Res (Option Rat)) (t : Time) :
     run sub src_WorkCalendarSub opFields t = (do
-      let x ← sub 0 t
+      let x ← sub 1 t
       let acc ← accum (fun u v => pure (u - v)) none x
-      let y ← sub 1 t
+      let y ← sub 2 t
       let r ← accum (fun u v => pure (u - v)) acc y
       match r with
       | none => pure none
       | some u => if u < 0 then pure none else pure (some u)) := by
-  rcases hx : sub 0 t with _ | _ | u <;> rcases hy : sub 1 t with _ | _ | v <;>
+  rcases hx : sub 1 t with _ | _ | u <;> rcases hy : sub 2 t with _ | _ | v <;>
     pylite_exec [src_WorkCalendarSub, opFields, hx, hy, accum] <;>
     repeat (apply eq_ite_of <;> intro h <;> pylite_exec [hx, hy, h])
 
 theorem run_Or (sub : Nat → Time → Res (Option Rat)) (t : Time) :
     run sub src_WorkCalendarDisjunction opFields t = (do
-      let x ← sub 0 t
+      let x ← sub 1 t
       match x with
       | some u => if 0 < u then pure (some u) else
-          (do let y ← sub 1 t
+          (do let y ← sub 2 t
               match y with
               | some v => if 0 < v then pure (some v) else pure none
               | none => pure none)
       | none =>
-          (do let y ← sub 1 t
+          (do let y ← sub 2 t
               match y with
               | some v => if 0 < v then pure (some v) else pure none
               | none => pure none)) := by
-  rcases hx : sub 0 t with _ | _ | u <;> rcases hy : sub 1 t with _ | _ | v <;>
+  rcases hx : sub 1 t with _ | _ | u <;> rcases hy : sub 2 t with _ | _ | v <;>
     pylite_exec [src_WorkCalendarDisjunction, opFields, hx, hy] <;>
     repeat (apply eq_ite_of <;> intro h <;> pylite_exec [hx, hy, h])
 
@@ -242,8 +247,8 @@ theorem run_Direct (sub : Nat → Time → Res (Option Rat)) (m : List (Int × R
 
 /-- `Resource.get_available_units`: `None` becomes 0 -/
 theorem run_Resource (sub : Nat → Time → Res (Option Rat)) (t : Time) :
-    run sub src_Resource resourceFields t = (do let v ← sub 0 t; pure (some (v.getD 0))) := by
-  rcases hx : sub 0 t with _ | _ | u <;> pylite_exec [src_Resource, resourceFields, hx]
+    run sub src_Resource resourceFields t = (do let v ← sub 1 t; pure (some (v.getD 0))) := by
+  rcases hx : sub 1 t with _ | _ | u <;> pylite_exec [src_Resource, resourceFields, hx]
 
 /-! ### the model is the meaning of the source -/
 
@@ -265,5 +270,133 @@ theorem interpResource_eq_capR (c : Cal) (t : Time) : interpResource c t = (capR
   rw [run_Resource]
   simp only [oneSub, interp_eq_eval]
   cases c.eval t <;> rfl
+
+/-! ### `IResource.get_nearest_availability_date` -/
+
+/-- `self.get_available_units` of the resource the search runs on -/
+def selfSub (x : Time → Res (Option Rat)) : Nat → Time → Res (Option Rat)
+  | 0 => x
+  | _ => fun _ => throw stuck
+
+/-- the environment inside the loop: the parameters, then `step` -/
+def searchEnv (dir : Int) (n k : Nat) (t : Time) : Env :=
+  [("start_date", .atom (.time t)), ("direction", .atom (.num ((dir : Int) : Rat))),
+   ("max_days", .atom (.num ((n : Nat) : Rat))), ("step", .atom (.num ((k : Nat) : Rat)))]
+
+/-- `Resource(calendar=c).get_nearest_availability_date(t, dir, n)`; `fuel` bounds the `while` loop -/
+def interpSearch (fuel : Nat) (c : Cal) (dir : Int) (n : Nat) (t : Time) : Res Time :=
+  match runBody (selfSub (interpResource c)) [] fuel src_IResource ((searchEnv dir n 0 t).take 3) with
+  | .ok (.atom (.time r)) => pure r
+  | .ok _ => throw stuck
+  | .error e => throw e
+
+/-- condition and body of the `while` loop -/
+def searchLoop : Expr × List Stmt :=
+  match src_IResource with
+  | [_, .while c b, _] => (c, b)
+  | _ => (.none, [])
+
+theorem src_IResource_shape :
+    src_IResource = [.assign "step" (.num 0), .while searchLoop.1 searchLoop.2, .raiseRuntime] := rfl
+
+theorem selfSub_resource (c : Cal) (t : Time) : selfSub (interpResource c) 0 t = (capR c t).map some := by
+  simp only [selfSub, interpResource_eq_capR]
+
+theorem search_cond (sub : Nat → Time → Res (Option Rat)) (dir : Int) (n k : Nat) (t : Time) :
+    (do truth (← searchLoop.1.eval sub [] (searchEnv dir n k t))) = .ok (decide (k < n)) := by
+  pylite_exec [searchLoop, src_IResource, searchEnv, Rat.natCast_lt_natCast]
+
+theorem search_body (c : Cal) (F : Nat) (dir : Int) (n k : Nat) (t : Time) :
+    execBlock (selfSub (interpResource c)) [] F searchLoop.2 (searchEnv dir n k t) =
+      match (if dir < 0 then capR c (t - 1) else capR c t) with
+      | .error e => .raise e
+      | .ok u => if 0 < u then .ret (.atom (.time t)) else .normal (searchEnv dir n (k + 1) (t + (dir : Rat))) := by
+  by_cases hd : dir < 0
+  · rcases hu : capR c (t - 1) with _ | u <;>
+      pylite_exec [searchLoop, src_IResource, searchEnv, selfSub_resource, Except.map, hu, hd, Rat.intCast_neg_iff] <;>
+      repeat (apply eq_ite_of <;> intro h <;> pylite_exec [h])
+  · rcases hu : capR c t with _ | u <;>
+      pylite_exec [searchLoop, src_IResource, searchEnv, selfSub_resource, Except.map, hu, hd, Rat.intCast_neg_iff] <;>
+      repeat (apply eq_ite_of <;> intro h <;> pylite_exec [h])
+
+theorem search_succ (c : Cal) (dir : Int) (m : Nat) (t : Time) :
+    search c dir (m + 1) t = (do
+      let u ← (if dir < 0 then capR c (t - 1) else capR c t)
+      if 0 < u then pure t else search c dir m (t + (dir : Rat))) := by
+  rw [search]
+  split <;> rfl
+
+def outcomeOf : Res Time → Outcome
+  | .ok r => .ret (.atom (.time r))
+  | .error e => .raise e
+
+theorem search_loop (c : Cal) (F : Nat) (dir : Int) (n : Nat) (m : Nat) :
+    ∀ (k : Nat) (t : Time) (f : Nat), k + m = n → m < f →
+    (match whileLoop (fun env' => do truth (← searchLoop.1.eval (selfSub (interpResource c)) [] env'))
+        (fun env' => execBlock (selfSub (interpResource c)) [] F searchLoop.2 env') f (searchEnv dir n k t) with
+      | .normal _ => .raise .runtime
+      | r => r) = outcomeOf (search c dir m t) := by
+  induction m with
+  | zero =>
+    intro k t f hk hf
+    obtain ⟨f, rfl⟩ : ∃ f', f = f' + 1 := ⟨f - 1, by omega⟩
+    have : ¬ k < n := by omega
+    simp [whileLoop, search_cond, this, search, outcomeOf, throw, throwThe, MonadExceptOf.throw]
+  | succ m ih =>
+    intro k t f hk hf
+    obtain ⟨f, rfl⟩ : ∃ f', f = f' + 1 := ⟨f - 1, by omega⟩
+    have hlt : k < n := by omega
+    have ih' := ih (k + 1) (t + (dir : Rat)) f (by omega) (by omega)
+    simp only [whileLoop, search_cond, hlt, decide_true, search_body, search_succ]
+    generalize (if dir < 0 then capR c (t - 1) else capR c t) = r
+    rcases r with e | u
+    · rfl
+    · by_cases hu : 0 < u
+      · simp [hu, outcomeOf, bind, Except.bind, pure, Except.pure]
+      · simp only [hu, if_false, bind, Except.bind]
+        exact ih'
+
+theorem interpSearch_eq_search (fuel : Nat) (c : Cal) (dir : Int) (n : Nat) (t : Time) (hf : n < fuel) :
+    interpSearch fuel c dir n t = search c dir n t := by
+  have h := search_loop c fuel dir n n 0 t fuel (by omega) hf
+  have henv : Env.set ((searchEnv dir n 0 t).take 3) "step" (.atom (.num 0)) = searchEnv dir n 0 t := by
+    simp [searchEnv, Env.set]
+  unfold interpSearch runBody
+  rw [src_IResource_shape]
+  simp only [execBlock, Stmt.exec, Expr.eval, pure, Except.pure, henv]
+  generalize whileLoop _ _ fuel (searchEnv dir n 0 t) = w at h ⊢
+  cases w <;> cases hs : search c dir n t <;>
+    simp_all [outcomeOf, throw, throwThe, MonadExceptOf.throw]
+
+/-
+  NEGATIVE SANITY CHECK (not compiled; performed 2026-09-27 with scratch copies of calendar.py / resource.py under
+  /tmp, the translator run on the mutated text, output written to Extracted/CalendarSrc.lean, then
+  `lake build PjVerif.Lemmas.CalendarSrc`; afterwards the file was regenerated from the real source and the build
+  succeeded again).  Every semantic mutation broke exactly the lemma of the mutated method:
+
+    WorkCalendarSub          `units < 0` -> `units <= 0`                  run_Sub       FAILS (unsolved goals)
+    WorkCalendarDisjunction  `units > 0` -> `units >= 0`                  run_Or        FAILS
+    WorkCalendarSum          `units += c_units` -> `units -= c_units`     run_Sum       FAILS
+    WorkCalendarsMul         `continue` -> `pass`                         run_Mul       FAILS
+    WorkCalendarDiv          `units /= c_units` -> `units *= c_units`     run_Div       FAILS
+    FixedCalendar            first `return 0` -> `return None`            run_Fixed     FAILS
+    WeeklyCalendar           `date > self.__end` -> `date >= self.__end`  run_Weekly    FAILS
+    DirectCalendar           `key = _day_start(date)` -> `key = date`     run_Direct    FAILS
+    Resource                 `0 if units is None else units` -> `units`   run_Resource  FAILS
+    IResource search         `> 0.0` -> `>= 0.0` (forward branch)         search_body   FAILS
+                             `start_date - timedelta(days=1)` -> `start_date`  search_body   FAILS
+                             `while step < max_days` -> `<=`              search_cond   FAILS
+                             `step += 1` -> `step += 2`                   search_body   FAILS
+                             final `raise RuntimeError(..)` -> `return None`   src_IResource_shape FAILS
+
+  Harmless rewrites that still build (the proofs do not mention local variable names except `step`): renaming
+  the locals of WorkCalendarSum; `units > 0` -> `0 < units`; nested `if c_units is not None:` instead of `continue`
+  with `units = units + c_units`; `return d[k] if k in d else None`; the positive form
+  `if units is not None and units >= 0: return units` / `return None` in WorkCalendarSub; `not (x is None)`, `elif`/
+  `else`, a docstring; a local variable for `date.weekday()`; Resource with an `if` statement instead of the
+  conditional expression; in the search `0 > direction`, `0 < self.get_available_units(start_date)`,
+  `step = step + 1`.  A harmless rewrite that breaks the search proof: introducing a further local variable in the
+  loop (the loop invariant `searchEnv` fixes the exact list of variables).
+-/
 
 end Pj.CalSrc
